@@ -34,9 +34,11 @@ fn parse_content_line(
 
 fn parse_global_assignment(input: &str) -> Result<GlobalVariable, CompilerError> {
     let (name, expression) = split_assignment(input, "=")?;
+    let initial_value = parse_expression(&expression)?;
+    crate::consts::check_initial_value(&name, &initial_value)?;
     Ok(GlobalVariable {
         name,
-        initial_value: parse_expression(&expression)?,
+        initial_value,
     })
 }
 
